@@ -410,6 +410,20 @@ structure TimePState where
   totalMeasure : Option Meas
   done : List DP
 
+def msUnit : List Char := "ms".toList
+
+/-- one line of the `time -p` loop (lines 114-127) -/
+def timePStep (classify : Line → Option (List Char × Val)) (inv : Nat) (st : TimePState) (l : Line) :
+    Except BuildErr TimePState :=
+  match classify l with
+  | none => .ok st
+  | some (crit, v) =>
+    let m : Meas := { invocation := inv, iteration := st.it, criterion := crit, unit := msUnit, value := v }
+    if m.isTotal then .ok { st with totalMeasure := some m }
+    else match st.cur.add m with
+      | .error e => .error e
+      | .ok c => .ok { st with cur := c }
+
 def timePLoop (marker : Line → Bool) (classify : Line → Option (List Char × Val)) (inv : Nat) :
     List Line → TimePState → Outcome
   | [], st =>
@@ -422,17 +436,7 @@ def timePLoop (marker : Line → Bool) (classify : Line → Option (List Char ×
   | l :: ls, st =>
     if marker l then .invalid
     else
-      let r : Except BuildErr TimePState :=
-        match classify l with
-        | none => .ok st
-        | some (crit, v) =>
-          let m : Meas := { invocation := inv, iteration := st.it, criterion := crit,
-                            unit := "ms".toList, value := v }
-          if m.isTotal then .ok { st with totalMeasure := some m }
-          else match st.cur.add m with
-            | .error e => .error e
-            | .ok c => .ok { st with cur := c }
-      match r with
+      match timePStep classify inv st l with
       | .error e => .crash e
       | .ok st' =>
         if st'.cur.ms.length = 3 ∧ st'.cur.total.isSome then
@@ -458,10 +462,16 @@ def reIncorrect : Re := seqs [.star anyChar, str "incorrect", .star anyChar]
 /-- `.*error.*` -/
 def reErr : Re := seqs [.star anyChar, str "error", .star anyChar]
 
-/-- `check_for_error` -/
+/-- `search` for a pattern that starts with `.*`: it matches somewhere iff it
+matches at the start of the line (the leading `.*` can absorb any offset), so
+only offset 0 is tried (`search_dotStar` in `Proofs/Lemmas/Adapters.lean`;
+the driver op `search` is diffed against Python's `search`). -/
+def Re.searchDotStar (r : Re) (l : List Char) : Bool := (r.pmatch l).isSome
+
+/-- `check_for_error`; `others` are the adapter's `.*…` patterns -/
 def checkForError (includeFaulty : Bool) (others : List Re) (l : Line) : Bool :=
   if includeFaulty then false
-  else reError.search l || reSegfault.search l || reBusError.search l || others.any (·.search l)
+  else reError.search l || reSegfault.search l || reBusError.search l || others.any (·.searchDotStar l)
 
 def npbMarkers : List Re := [reNPBPartial, reNPBInvalid, reIncorrect]
 
